@@ -369,6 +369,10 @@ def classify_site(ck, prog, ctx, bb, name, kinds, key):
     def dominated_by_any(edges, b):
         return any(cfg.edge_dominates(e, b) for e in edges)
 
+    if classified and REVIEWED_UNCLASSIFIED.get(name) == "cannot fail":
+        # asking the classifier about a call that cannot fail (a debug assertion, say) changes nothing: the value is still the answer
+        ck.ob("C09.2", f"{key}|reviewed", True, fn=path, site=ctx.site(bb), detail=f"reviewed: {REVIEWED_UNCLASSIFIED[name]}")
+        return "table"
     if not classified:
         if name in REVIEWED_UNCLASSIFIED:
             ck.ob("C09.2", f"{key}|reviewed", True, fn=path, site=ctx.site(bb), detail=f"reviewed: {REVIEWED_UNCLASSIFIED[name]}")
